@@ -42,4 +42,12 @@ except Exception as ex:
     text = '(* t5 failed: %r *)\nDefinition ImportGen_untranslatable : unit := tt.\n' % (ex,)
     status['ImportGen'] = {'_error': repr(ex)}
 write_if_changed(os.path.join(gen, 'ImportGen.v'), text)
+try:
+    import t6_shared  # noqa: E402
+    text, st = t6_shared.generate(REPO)
+    status['ThreadGen'] = {'findings': st['findings']}
+except Exception as ex:
+    text = '(* t6 failed: %r *)\nDefinition ThreadGen_untranslatable : unit := tt.\n' % (ex,)
+    status['ThreadGen'] = {'_error': repr(ex)}
+write_if_changed(os.path.join(gen, 'ThreadGen.v'), text)
 print(json.dumps(status))
